@@ -26,6 +26,7 @@ PREV = [None, "ON", "OFF"]
 
 class C15(Prop):
     id = "C15"
+    tour_every = 3
     level = "exploration"
     technique = "generated IR databases loaded through the real remote manager; every request of the full request space compared with an executable selection model (unique code texts identify the chosen key)"
     rule = ("case = one generated database file holding 3 IR sets (toggle / non-toggle x separate-swing ids / ordinary ids x dense..sparse key "
@@ -87,6 +88,13 @@ class C15(Prop):
             if mgr.get_remote(rid) is not remote:
                 acc.violation("manager-cache", f"get_remote({rid}) returned a different object on the second call", {})
             self._capabilities(acc, remote, irs)
+            if i % 3 == 1:
+                # the thermostat this remote belongs to is on the network too: its broadcasts are parsed by the same process
+                from .. import tour
+
+                tour.note_remote(rid)
+                tour.hear_breeze(rid, env.rng("C15hear", i, rid))
+                acc.count("remotes_whose_thermostat_was_heard_broadcasting")
             self._requests(acc, remote, irs)
             self._swing(acc, remote, irs)
         db.unlink()
